@@ -25,7 +25,7 @@ extern "C" __attribute__((used)) const char* __ubsan_default_options() {
   return "print_stacktrace=1:halt_on_error=1:exitcode=77";
 }
 extern "C" __attribute__((used)) const char* __tsan_default_options() {
-  return "exitcode=77:halt_on_error=1:report_signal_unsafe=0:history_size=2:second_deadlock_stack=1";
+  return "exitcode=77:halt_on_error=1:report_signal_unsafe=0:history_size=2:second_deadlock_stack=1:ignore_interceptors_accesses=1";
 }
 
 namespace runner {
